@@ -104,7 +104,7 @@ Proof. reflexivity. Qed.
 
 (* ---- which methods each trait impl defines itself (all others are the trait's defaults) ---- *)
 
-Lemma tie_impl_count : length gen_impl_methods = 72%nat.
+Lemma tie_impl_count : length gen_impl_methods = 75%nat.
 Proof. reflexivity. Qed.
 
 (* ---- the bounds each trait impl places on its type parameters ---- *)
@@ -145,7 +145,7 @@ Lemma tie_cmp_headers :
   = ["PartialEq for GenericArray<T,N>"; "Eq for GenericArray<T,N>"; "PartialOrd for GenericArray<T,N>"; "Ord for GenericArray<T,N>"].
 Proof. reflexivity. Qed.
 
-Lemma tie_impl_bounds_count : length gen_impl_bounds = 72%nat.
+Lemma tie_impl_bounds_count : length gen_impl_bounds = 75%nat.
 Proof. reflexivity. Qed.
 
 (* ---- impl_tuple!: both conversions are safe destructurings -- the tuple is taken apart into the
